@@ -34,6 +34,20 @@ class ToolError(Exception):
     pass
 
 
+def _filtered(f):
+    def g(*a, **kw):
+        ds = f(*a, **kw)
+        only = os.environ.get("VERIF_ONLY")
+        if only:
+            ds = [d for d in ds if d["name"] == only]
+        return ds
+    return g
+
+
+for _n in ("build", "schema_descs", "c10_descs", "syntax_descs"):
+    setattr(kit, _n, _filtered(getattr(kit, _n)))
+
+
 def log(*a):
     print("[verif]", *a, file=sys.stderr, flush=True)
 
@@ -594,9 +608,15 @@ class Report:
             "violations": nviol,
         }
         ev["coverage"]["known_findings_hit"] = {m: n for m, (k, n) in self.known_hits.items()}
+        if not ev["coverage"]["samples"]:
+            # every explored case was a violation: show some of them
+            ev["coverage"]["samples"] = [{"violation": fp, "stimulus": rep.get("stimulus")} for fp, rep in self.violations[:4]]
         if ev["coverage"]["states"] < 1 or not ev["coverage"]["samples"]:
             raise ToolError("evidence would be empty: nothing was explored")
-        with open(os.path.join(EVIDENCE, "%s.json" % self.prop), "w") as f:
+        evp = os.path.join(EVIDENCE, "%s.json" % self.prop)
+        if os.environ.get("VERIF_ONLY") or os.environ.get("VERIF_REPLAY"):
+            evp = os.path.join(WORK, "replay_evidence_%s.json" % self.prop)     # a replay never rewrites the evidence
+        with open(evp, "w") as f:
             json.dump(ev, f, indent=1)
         log("%s: %d violation(s), %d known-finding pattern(s), %.0fs" % (self.prop, nviol, len(self.known_hits),
                                                                        time.time() - self.t0))
@@ -646,7 +666,7 @@ def run_jobs(ctx, units, jobs, rep, tag="vec"):
     return out, info
 
 
-def gen_vectors(ctx, units, modes, rep, nshort=0, nbits=0, select=None):
+def gen_vectors(ctx, units, modes, rep, nshort=0, nbits=0, select=None, mode_select=None):
     """TLC: stimuli + expected results for every (unit, type, mode).  Returns list of vector dicts
     with 'unit' and 'type' attached, and the info records per unit."""
     jobs = []
@@ -656,6 +676,8 @@ def gen_vectors(ctx, units, modes, rep, nshort=0, nbits=0, select=None):
             if select and not select(u, t):
                 continue
             for m in modes:
+                if mode_select and not mode_select(u, t, m):
+                    continue
                 n = nshort if m == "decx" else nbits if m == "encx" else 0
                 jobs.append(dict(d=k + 1, type=t, anc="", mode=m, n=n))
     return run_jobs(ctx, units, jobs, rep)
@@ -1022,7 +1044,15 @@ def prepare_rust_units(ctx, tier, want=("analyze", "rust")):
 def check_rust_codec(prop, ctx):
     rep = Report(prop, ctx.tier, ctx.seed)
     units, bins = prepare_rust_units(ctx, ctx.tier)
-    vecs, info = gen_vectors(ctx, units, CODEC_MODES[prop], rep)
+    modes = list(CODEC_MODES[prop])
+    if ctx.tier == "thorough" and prop in ("C03", "C02", "C17"):
+        modes.append("encx")        # every value of every type with at most 12 variable bits
+    if ctx.tier == "thorough" and prop in ("C04", "C01"):
+        modes.append("decx")        # every byte string of length <= 2 for the bit-field-only descriptions
+    small = ("bf_1_", "bf_2_", "bf_3_", "bf_4_", "bf_8", "w1_", "w2_", "w7_", "w8_", "w9_", "enum_e8", "enum_e3", "enum_er", "enum_eo",
+             "enum_ec", "pl_siz8", "pl_siz3", "arr_u8_cnt", "arr_e8_siz", "opt_shared", "inh_children", "inh_by_size")
+    vecs, info = gen_vectors(ctx, units, modes, rep, nshort=2, nbits=12,
+                             mode_select=lambda u, t, m: m != "decx" or u.desc["name"].startswith(small))
     usable = [v for v in vecs if info.get(v["unit"].name, {}).get("rust") and v["unit"].name in bins]
     obs = run_rust(bins, rust_requests(usable))
     skipped = 0
@@ -1246,8 +1276,8 @@ def check_c06(ctx):
                     viol(v, "down_rejects:" + str(r.get("err")), r)
                 elif not same_native(r["ok"], node_to_native(v["val"])):
                     viol(v, "down_value", {"expected": node_to_native(v["val"]), "got": r["ok"]})
-                elif not (r.get("back", {}).get("same")):
-                    viol(v, "down_then_up_differs", r)
+                # (parent -> child -> parent is *not* demanded to be the identity: the parent's payload may carry
+                #  reserved bits or padding that the canonical re-encoding clears; C06 states child -> parent -> child)
             else:
                 if "ok" in r:
                     viol(v, "down_accepts:" + "+".join(sorted(F)), r)
@@ -2993,6 +3023,32 @@ def main():
             return 2
         finally:
             ctx.cleanup()
+    if a.cmd == "replay":
+        rp = json.load(open(a.path))
+        prop = rp["property"]
+        os.environ["VERIF_REPLAY"] = "1"
+        if isinstance(rp.get("desc"), dict) and rp["desc"].get("name"):
+            # re-run the property's check on the one description of the replay file, against the current tree
+            os.environ["VERIF_ONLY"] = rp["desc"]["name"]
+            ctx = Ctx(os.environ.get("VERIF_TIER") or "quick", int(os.environ.get("VERIF_SEED", "1")))
+            try:
+                print("replaying %s on description %s (fingerprint %s)" % (prop, rp["desc"]["name"], rp.get("fingerprint")))
+                return CHECKS[prop](ctx)
+            except ToolError as e:
+                print("TOOL-ERROR: " + str(e)[-3000:], file=sys.stderr)
+                return 2
+            finally:
+                ctx.cleanup()
+        # a source text (C10 text mutants, C12 renderings): hand it to the real parser / analyzer again
+        drv = build_driver()
+        res = run_driver(drv, [dict(rid=0, name="replay.pdl", src=rp["pdl"], want=["parse", "analyze", "json"])], tag="replay")
+        r = res.get(0, {})
+        summary = {k: (("ok" if "ok" in v else v) if isinstance(v, dict) else v) for k, v in r.items()}
+        print(json.dumps(summary)[:2000])
+        bad = any(isinstance(v, dict) and ("panic" in v or "timeout" in v) for v in r.values()) or "abnormal" in r
+        if bad:
+            print("VIOLATION property=%s replay=%s" % (prop, a.path))
+        return 1 if bad else 0
     ap.print_help()
     return 2
 
